@@ -16,8 +16,12 @@ pub enum Plan {
     AlignOracle { vi: usize },
     /// oracle far away from the market, on the side that makes `trader`'s position pay funding
     OracleSkew { vi: usize, trader: u64 },
+    /// oracle 10 % away from the market, on the side that makes `trader`'s position RECEIVE funding
+    OracleSkewRecv { vi: usize, trader: u64 },
     /// PayFunding one funding period later
     FundingRound { vi: usize },
+    /// a fixed message by a fixed sender (role hand-over scripts)
+    Call { by: u64, msg: Msg },
     Liq { vi: usize, victim: u64, first: bool },
     /// open `frac_ppm` of the quote reserve as notional; `high` = close to the maximum leverage
     OpenFrac { vi: usize, trader: u64, long: bool, frac_ppm: u128, high: bool },
@@ -59,9 +63,13 @@ pub enum CKind {
     PlrOne,
     /// engine partial-liquidation ratio = 1/4
     PlrQuarter,
+    /// partial liquidation ratio of 125 % (out of range: the update must be refused)
+    PlrOver,
     VFluctTight,
     /// fluctuation limit switched off
     VFluctOff,
+    /// fluctuation limit of 10 %
+    VFluctTen,
     /// engine liquidation fee ratio set to 0 (0) or to a small odd value (1)
     LfSet(u64),
     /// undo of a re-wiring
@@ -119,6 +127,11 @@ pub enum TOp {
     /// order on the side opposite to a stored size-zero record's direction, with a base limit on the wrong
     /// side of the quoted amount (0) or exactly at it (1)
     AfterFlat(u64),
+    /// order of exactly the size that takes the spot price onto the edge of the per-block band, on the side that hurts the
+    /// position of the given trader (a long: the lower edge)
+    OpenToBandEdge(u64),
+    /// a long of the given (tiny) notional in raw units
+    OpenDust(u64),
 }
 #[derive(Clone, Copy, Debug, PartialEq)]
 pub enum Who {
@@ -618,6 +631,15 @@ fn start_campaign(w: &World, r: &mut Rng, g: &mut GenCtx, vis: &[VInfo], ps: &[P
             (v.idx, victim)
         }
     };
+    // the victim also holds a (small, healthy) position on ANOTHER market of the same engine and fund: a liquidation names one
+    // (vAMM, trader) record and must leave the trader's other records alone, whatever the fund can or cannot pay
+    if r.chance(1, 3) {
+        if let Some(v2) = vis.iter().find(|x| x.idx != vi && x.usable()) {
+            if !ps.iter().any(|p| p.v == v2.id && p.t == victim) {
+                g.plan.push_front(Plan::OpenFrac { vi: v2.idx, trader: victim, long: r.chance(1, 2), frac_ppm: 10_000, high: false });
+            }
+        }
+    }
     // variant (one in four): the oracle is aligned BEFORE the push and then left alone, so that at liquidation time the
     // market is far away from the oracle and the oracle-priced ratio (funding since the checkpoint included) decides
     let oracle_stays = r.chance(1, 4);
@@ -639,12 +661,52 @@ fn start_campaign(w: &World, r: &mut Rng, g: &mut GenCtx, vis: &[VInfo], ps: &[P
         // larger than the shortfall the native bookkeeping of the required coins nets the two)
         g.plan.push_back(Plan::TraderOp { vi, who: Who::Id(victim), op: TOp::Reverse, block: Blk::Next });
     }
+    if existing.is_none() && r.chance(1, 6) {
+        // a bystander holding 6 % of the pool since an earlier block; band of 10 % and partial ratio 1/4 set just before the
+        // liquidation; in the liquidation block the bystander closes (the engine turns that into a PARTIAL close), closes again
+        // and opens — the second and third action must be refused
+        let vid = vis.iter().find(|x| x.idx == vi).map(|x| x.id).unwrap_or(0);
+        if let Some(b) = TRADERS.iter().cloned().find(|t| *t != victim && !ps.iter().any(|p| p.v == vid && p.t == *t)) {
+            g.plan.push_front(Plan::OpenFrac { vi, trader: b, long: r.chance(1, 2), frac_ppm: 60_000, high: false });
+            g.plan.push_back(Plan::Config { vi, kind: CKind::PlrQuarter, legit: true, trader: b });
+            g.plan.push_back(Plan::Config { vi, kind: CKind::VFluctTen, legit: true, trader: b });
+            g.plan.push_back(Plan::Liq { vi, victim, first: false });
+            g.plan.push_back(Plan::TraderOp { vi, who: Who::Id(b), op: TOp::Close, block: Blk::Same });
+            g.plan.push_back(Plan::TraderOp { vi, who: Who::Id(b), op: TOp::Close, block: Blk::Same });
+            g.plan.push_back(Plan::TraderOp { vi, who: Who::Id(b), op: TOp::OpenSame, block: Blk::Same });
+            g.plan.push_back(Plan::Config { vi, kind: CKind::VFluctOff, legit: true, trader: b });
+            return true;
+        }
+    }
+    if existing.is_none() && r.chance(1, 6) {
+        // band of 10 %; in the liquidation block a bystander first trades the spot price EXACTLY onto the edge of the band (on the
+        // side that hurts the victim): the price is then at the edge, not outside it — the liquidation that follows in the same
+        // block must go through, a further order in the bystander's direction must be refused, one in the other direction accepted
+        let vid = vis.iter().find(|x| x.idx == vi).map(|x| x.id).unwrap_or(0);
+        if let Some(b) = TRADERS.iter().cloned().find(|t| *t != victim && !ps.iter().any(|p| p.v == vid && p.t == *t)) {
+            g.plan.push_back(Plan::Config { vi, kind: CKind::VFluctTen, legit: true, trader: b });
+            g.plan.push_back(Plan::TraderOp { vi, who: Who::Id(b), op: TOp::OpenToBandEdge(victim), block: Blk::Next });
+            g.plan.push_back(Plan::LiqBy { vi, by: LIQUIDATOR, block: Blk::Same });
+            if let Some(c) = TRADERS.iter().cloned().find(|t| *t != victim && *t != b && !ps.iter().any(|p| p.v == vid && p.t == *t)) {
+                g.plan.push_back(Plan::TraderOp { vi, who: Who::Id(c), op: TOp::OpenSame, block: Blk::Same });
+            }
+            g.plan.push_back(Plan::Config { vi, kind: CKind::VFluctOff, legit: true, trader: b });
+            return true;
+        }
+    }
     if target < 0 && r.chance(1, 4) {
         // the engine is paused while the (under-water) victim is liquidated: Liquidate stays available, bad debt included
         g.plan.push_back(Plan::Pause { p: true });
         g.plan.push_back(Plan::Liq { vi, victim, first: false });
         g.plan.push_back(Plan::PayFunding { vi, by: STRANGER, block: Blk::Free });
         g.plan.push_back(Plan::Pause { p: false });
+        return true;
+    }
+    if target > 0 && r.chance(1, 5) {
+        // the owner submits ratios outside 0..100 % right before the liquidation (each update must be refused and change nothing):
+        // "whatever the partial-liquidation setting" quantifies over the settings the engine ACCEPTS
+        g.plan.push_back(Plan::Config { vi, kind: CKind::PlrOver, legit: true, trader: victim });
+        g.plan.push_back(Plan::Liq { vi, victim, first: true });
         return true;
     }
     let plr_now = w.engine_config().map(|c| c.partial_liquidation_ratio.u128()).unwrap_or(0);
@@ -786,6 +848,17 @@ fn realize(w: &World, r: &mut Rng, g: &mut GenCtx, plan: &Plan, vis: &[VInfo], p
             let price = if long { (v.spot(d) / 3).max(1) } else { v.spot(d).saturating_mul(3) };
             Some(draft(snd, Msg::Oracle { price, ts: now }))
         }
+        Plan::OracleSkewRecv { vi, trader } => {
+            let v = vis.iter().find(|x| x.idx == *vi)?;
+            let p = ps.iter().find(|p| p.v == v.id && p.t == *trader && p.size != 0)?;
+            let long = p.sneg == 0;
+            let snd = if w.cfg.real_feed { w.feed_owner() } else { OWNER };
+            let now = w.app.block_info().time.seconds();
+            // a long receives when the oracle is above the market, a short when it is below
+            let price = if long { v.spot(d).saturating_mul(11) / 10 } else { (v.spot(d) * 10 / 11).max(1) };
+            Some(draft(snd, Msg::Oracle { price, ts: now }))
+        }
+        Plan::Call { by, msg } => Some(draft(*by, msg.clone())),
         Plan::FundingRound { vi } => {
             let v = vis.iter().find(|x| x.idx == *vi)?;
             let period = w.cfg.vamms.get(v.idx).map(|i| i.period).unwrap_or(3600);
@@ -873,6 +946,14 @@ fn realize(w: &World, r: &mut Rng, g: &mut GenCtx, plan: &Plan, vis: &[VInfo], p
                 dr
             };
             let mut dr = match (op, pos) {
+                (TOp::OpenDust(n), None) => {
+                    // 1x: margin = notional = n raw units (at 2x the rounding of the first valuation already eats the margin)
+                    let mut dr = draft(trader, Msg::Open { v: v.id, side: 0, margin: *n as u128, lev: d, lim: 0 });
+                    if w.cfg.native {
+                        dr.funds = open_funds(w, Some(v), pos, 0, *n as u128, d);
+                    }
+                    dr
+                }
                 (TOp::OpenSame, Some(p)) => open(p.dir, (value(p) / 8).max(d)),
                 (TOp::OpenSame, None) => open(0, (v.q / 200).max(d)),
                 (TOp::Reduce, Some(p)) => open(1 - p.dir, (value(p) / 2).max(1)),
@@ -980,6 +1061,60 @@ fn realize(w: &World, r: &mut Rng, g: &mut GenCtx, plan: &Plan, vis: &[VInfo], p
                     };
                     if let Msg::Open { lim, .. } = &mut dr.msg {
                         *lim = want;
+                    }
+                    dr
+                }
+                (TOp::OpenToBandEdge(victim), _) => {
+                    if v.fluct == 0 || v.b == 0 {
+                        return None;
+                    }
+                    let vp = ps.iter().find(|p| p.v == v.id && p.t == *victim)?;
+                    let side: u64 = if vp.dir == 0 { 1 } else { 0 };
+                    // the band of the NEXT block is taken around the price the reserves have now
+                    let last = v.spot(d);
+                    let edge = if side == 0 { mul_div(last, d + v.fluct, d) } else { mul_div(last, d.saturating_sub(v.fluct), d) };
+                    let price_after = |n: u128| -> Option<u128> {
+                        let b = w.q::<Uint128, _>(&v.addr, &vamm::QueryMsg::InputAmount { direction: dirq(side), amount: Uint128::new(n) })?.u128();
+                        if side == 0 {
+                            let nb = v.b.checked_sub(b)?;
+                            if nb == 0 {
+                                return None;
+                            }
+                            Some(mul_div(v.q.checked_add(n)?, d, nb))
+                        } else {
+                            Some(mul_div(v.q.checked_sub(n)?, d, v.b.checked_add(b)?))
+                        }
+                    };
+                    let inside = |n: u128| -> bool {
+                        match price_after(n) {
+                            Some(p) => {
+                                if side == 0 {
+                                    p <= edge
+                                } else {
+                                    p >= edge
+                                }
+                            }
+                            None => false,
+                        }
+                    };
+                    let (mut lo, mut hi) = (0u128, v.q / 3);
+                    if inside(hi) {
+                        return None;
+                    }
+                    while hi - lo > 1 {
+                        let mid = lo + (hi - lo) / 2;
+                        if inside(mid) {
+                            lo = mid;
+                        } else {
+                            hi = mid;
+                        }
+                    }
+                    if lo == 0 {
+                        return None;
+                    }
+                    let mut dr = draft(trader, Msg::Open { v: v.id, side, margin: lo, lev: d, lim: 0 });
+                    if w.cfg.native {
+                        dr.funds = open_funds(w, Some(v), pos, side, lo, d);
                     }
                     dr
                 }
@@ -1183,6 +1318,7 @@ fn config_msg(w: &World, r: &mut Rng, v: &VInfo, kind: CKind, legit: bool, trade
         }
         CKind::PlrOne => draft(eowner, ecfg(None, None, Some(d), None)),
         CKind::PlrQuarter => draft(eowner, ecfg(None, None, Some(d / 4), None)),
+        CKind::PlrOver => draft(eowner, ecfg(None, None, Some(d + d / 4), None)),
         CKind::VFluctTight => {
             let own = w.vamm_owner(&v.addr);
             let mut m = vcfg0(v.id);
@@ -1192,6 +1328,14 @@ fn config_msg(w: &World, r: &mut Rng, v: &VInfo, kind: CKind, legit: bool, trade
             draft(own, m)
         }
         CKind::LfSet(k) => draft(eowner, ecfg(None, None, None, Some(if k == 0 { 0 } else { d / 40 + 1 }))),
+        CKind::VFluctTen => {
+            let own = w.vamm_owner(&v.addr);
+            let mut m = vcfg0(v.id);
+            if let Msg::VCfg { ufluct, .. } = &mut m {
+                *ufluct = Some(d / 10);
+            }
+            draft(own, m)
+        }
         CKind::VFluctOff => {
             let own = w.vamm_owner(&v.addr);
             let mut m = vcfg0(v.id);
@@ -1726,7 +1870,7 @@ fn gen_admin(w: &World, r: &mut Rng, vis: &[VInfo], mode: Mode) -> Draft {
                     if r.chance(1, 3) {
                         m.1 = Some(*r.pick(&[IFUND, IFUND, STRANGER]));
                     } else {
-                        m.5 = Some(*r.pick(&[0, d / 4, d / 2, d]));
+                        m.5 = Some(*r.pick(&[0, d / 4, d / 2, d, d + 1, d / 3]));
                     }
                 }
                 7 => {
@@ -1980,6 +2124,8 @@ pub fn gen_step(w: &World, r: &mut Rng, g: &mut GenCtx, k: u64, stats: &mut Stat
         if let Some(p) = ps.iter().find(|p| p.size == 0 && p.block == b.height && TRADERS.contains(&p.t)) {
             if let Some(v) = vis.iter().find(|v| v.id == p.v) {
                 if r.chance(1, 2) {
+                    // first with the base limit one unit on the wrong side of the quote (must be refused, nothing changes), then exactly at it
+                    g.plan.push_back(Plan::TraderOp { vi: v.idx, who: Who::Id(p.t), op: TOp::AfterFlat(0), block: Blk::Same });
                     g.plan.push_back(Plan::TraderOp { vi: v.idx, who: Who::Id(p.t), op: TOp::AfterFlat(1), block: Blk::Same });
                 }
             }
@@ -2003,6 +2149,261 @@ pub fn gen_step(w: &World, r: &mut Rng, g: &mut GenCtx, k: u64, stats: &mut Stat
                 g.plan.push_back(Plan::Config { vi, kind: CKind::VFluctOff, legit: true, trader });
                 g.plan.push_back(Plan::TraderOp { vi, who: Who::Id(trader), op: TOp::Close, block: Blk::Next });
                 stats.count("campaign", "charged_once");
+            }
+        }
+    }
+    // "funded, then every kind of order": in another eighth of the histories a trader opens 3 % of the pool, funding is settled once
+    // with the oracle on the side that makes the position PAY or RECEIVE (both signs of the charge), the oracle is realigned and the
+    // trader places one order of a kind decided from (seed, h): reversal (with and without remainder, large), reduce, increase,
+    // withdraw, deposit, whole close
+    if k == 6 && g.plan.is_empty() && (w.cfg.seed.wrapping_mul(0x9E37_79B9).wrapping_add(w.cfg.h.wrapping_mul(0x85EB_CA6B)) >> 7) % 8 == 1 {
+        if let Some(v) = vis.iter().find(|v| v.usable()) {
+            let vi = v.idx;
+            let hh = w.cfg.seed.wrapping_mul(0xC2B2_AE35).wrapping_add(w.cfg.h.wrapping_mul(0x27D4_EB2F)) >> 5;
+            let trader = TRADERS[(w.cfg.h % 4) as usize];
+            if !ps.iter().any(|p| p.v == v.id && p.t == trader) && !w.engine_paused() {
+                g.plan.push_back(Plan::OpenFrac { vi, trader, long: hh % 2 == 0, frac_ppm: 30_000, high: false });
+                if (hh >> 1) % 2 == 0 {
+                    g.plan.push_back(Plan::OracleSkewRecv { vi, trader });
+                } else {
+                    g.plan.push_back(Plan::OracleSkew { vi, trader });
+                }
+                g.plan.push_back(Plan::FundingRound { vi });
+                g.plan.push_back(Plan::AlignOracle { vi });
+                let op = match (hh >> 2) % 8 {
+                    0 | 1 => TOp::Reverse,
+                    2 => TOp::ReverseBig,
+                    3 => TOp::FlatReverse,
+                    4 => TOp::Reduce,
+                    5 => TOp::OpenSame,
+                    6 => TOp::Withdraw,
+                    _ => TOp::Close,
+                };
+                g.plan.push_back(Plan::TraderOp { vi, who: Who::Id(trader), op, block: Blk::Next });
+                stats.count("campaign", "funded_then_order");
+            }
+        }
+    }
+    // "the cap binds the very first trade": while the engine's open interest is exactly zero the vAMM's open-interest cap is set to one
+    // unit; a first order above it must be refused, one that lands exactly on it accepted, the next increase refused
+    if k == 1 && g.plan.is_empty() && g.mode != Mode::Twin && w.engine_oi() == 0 && (w.cfg.seed.wrapping_mul(0x9E37_79B9).wrapping_add(w.cfg.h.wrapping_mul(0x85EB_CA6B)) >> 7) % 8 == 5 {
+        if let Some(v) = vis.iter().find(|v| v.usable()) {
+            let vi = v.idx;
+            let id = v.id;
+            let hh = w.cfg.seed.wrapping_mul(0xC2B2_AE35).wrapping_add(w.cfg.h.wrapping_mul(0x27D4_EB2F)) >> 5;
+            let a = TRADERS[(hh % 4) as usize];
+            let o = w.vamm_owner(&v.addr);
+            let vcfg = |uoic: Option<u128>, ucap: Option<u128>| Msg::VCfg { v: id, ucap, uoic, utoll: None, uspread: None, ufluct: None, ueng: None, uifd: None, ufeed: None, utwi: None };
+            if !ps.iter().any(|p| p.v == id && p.t == a) && !w.engine_paused() {
+                g.plan.push_back(Plan::Call { by: o, msg: vcfg(Some(w.cfg.d), None) });
+                g.plan.push_back(Plan::TraderOp { vi, who: Who::Id(a), op: TOp::OpenSame, block: Blk::Free });
+                g.plan.push_back(Plan::TraderOp { vi, who: Who::Id(a), op: TOp::OpenToOiCap(1), block: Blk::Free });
+                g.plan.push_back(Plan::TraderOp { vi, who: Who::Id(a), op: TOp::OpenToOiCap(0), block: Blk::Free });
+                g.plan.push_back(Plan::TraderOp { vi, who: Who::Id(a), op: TOp::OpenSame, block: Blk::Free });
+                g.plan.push_back(Plan::TraderOp { vi, who: Who::Id(a), op: TOp::Close, block: Blk::Next });
+                // the same for the holding cap (one base unit) on the now empty book
+                g.plan.push_back(Plan::Call { by: o, msg: vcfg(Some(0), Some(w.cfg.d)) });
+                g.plan.push_back(Plan::TraderOp { vi, who: Who::Id(a), op: TOp::OpenSame, block: Blk::Next });
+                g.plan.push_back(Plan::TraderOp { vi, who: Who::Id(a), op: TOp::OpenToHoldCap(1), block: Blk::Free });
+                g.plan.push_back(Plan::TraderOp { vi, who: Who::Id(a), op: TOp::OpenToHoldCap(0), block: Blk::Free });
+                g.plan.push_back(Plan::TraderOp { vi, who: Who::Id(a), op: TOp::Close, block: Blk::Next });
+                g.plan.push_back(Plan::Call { by: o, msg: vcfg(None, Some(0)) });
+                stats.count("campaign", "cap_on_empty_book");
+            }
+        }
+    }
+    // "a long worth less than one raw unit of quote": on a market priced below 1 a trader buys a few raw units of base, a large short
+    // pushes the price down, and the dust long is closed (its swap_output quotes 0), or liquidated, or topped up and reduced
+    if k == 4 && g.plan.is_empty() && g.mode != Mode::Twin && (w.cfg.seed.wrapping_mul(0x9E37_79B9).wrapping_add(w.cfg.h.wrapping_mul(0x85EB_CA6B)) >> 7) % 8 == 3 {
+        let d = w.cfg.d;
+        if let Some(v) = vis.iter().filter(|v| v.usable() && v.fluct == 0 && v.spot(d) < d).min_by_key(|v| v.spot(d)) {
+            let vi = v.idx;
+            let hh = w.cfg.seed.wrapping_mul(0xC2B2_AE35).wrapping_add(w.cfg.h.wrapping_mul(0x27D4_EB2F)) >> 5;
+            let a = TRADERS[(hh % 4) as usize];
+            let b = TRADERS[((hh + 1) % 4) as usize];
+            if !ps.iter().any(|p| p.v == v.id && (p.t == a || p.t == b)) && !w.engine_paused() {
+                g.plan.push_back(Plan::TraderOp { vi, who: Who::Id(a), op: TOp::OpenDust(2 + (hh >> 3) % 2), block: Blk::Free });
+                g.plan.push_back(Plan::OpenFrac { vi, trader: b, long: false, frac_ppm: 500_000, high: false });
+                match (hh >> 5) % 3 {
+                    0 => g.plan.push_back(Plan::TraderOp { vi, who: Who::Id(a), op: TOp::Close, block: Blk::Next }),
+                    1 => g.plan.push_back(Plan::LiqBy { vi, by: LIQUIDATOR, block: Blk::Next }),
+                    _ => {
+                        g.plan.push_back(Plan::TraderOp { vi, who: Who::Id(a), op: TOp::Reverse, block: Blk::Next });
+                        g.plan.push_back(Plan::TraderOp { vi, who: Who::Id(a), op: TOp::Close, block: Blk::Next });
+                    }
+                }
+                g.plan.push_back(Plan::TraderOp { vi, who: Who::Id(b), op: TOp::Close, block: Blk::Next });
+                stats.count("campaign", "dust_long");
+            }
+        }
+    }
+    // "a role is handed over, used, and handed back": in an eighth of the histories one role (decided from (seed, h)) goes to another
+    // account; the OLD holder, the owner of the engine and a stranger then try the role's calls (in the states in which the calls
+    // would do something: lifting a pause that is in force, closing an open vAMM …), the new holder makes them, hands the role back,
+    // and tries once more
+    if k == 9 && g.plan.is_empty() && g.mode != Mode::Twin && (w.cfg.seed.wrapping_mul(0x9E37_79B9).wrapping_add(w.cfg.h.wrapping_mul(0x85EB_CA6B)) >> 7) % 8 == 2 {
+        let hh = w.cfg.seed.wrapping_mul(0xC2B2_AE35).wrapping_add(w.cfg.h.wrapping_mul(0x27D4_EB2F)) >> 5;
+        let eowner = w.engine_config().map(|c| w.id(c.owner.as_str())).unwrap_or(OWNER);
+        let call = |g: &mut GenCtx, by: u64, msg: Msg| g.plan.push_back(Plan::Call { by, msg });
+        let other = |cur: u64| if cur == NEWOWNER { STRANGER } else { NEWOWNER };
+        match hh % 8 {
+            6 => {
+                // the ENGINE names another insurance fund: that account gains nothing on the vAMMs (each vAMM trusts the fund in its
+                // OWN configuration), the registered fund can still shut the markets down
+                if let Some(v) = vis.iter().find(|v| v.usable()) {
+                    let id = v.id;
+                    let x = STRANGER;
+                    let ecfg = |uifd: Option<u64>| Msg::ECfg { uowner: None, uifd, ufp: None, uimr: None, ummr: None, uplr: None, ulf: None };
+                    call(g, eowner, ecfg(Some(x)));
+                    call(g, x, Msg::VSetOpen { v: id, uopen: 0 });
+                    call(g, x, Msg::IfShutdown);
+                    call(g, IFUND, Msg::VSetOpen { v: id, uopen: 0 });
+                    call(g, x, Msg::VSetOpen { v: id, uopen: 1 });
+                    call(g, IFUND, Msg::VSetOpen { v: id, uopen: 1 });
+                    call(g, eowner, ecfg(Some(IFUND)));
+                    stats.count("campaign", "role_delegation_engine_fund");
+                }
+            }
+            7 => {
+                // a vAMM names another insurance fund: that account may open / close this vAMM, the old fund no longer, nobody else;
+                // a trade with a spread fee still pays the ENGINE's fund
+                if let Some(v) = vis.iter().find(|v| v.usable()) {
+                    let id = v.id;
+                    let o = w.vamm_owner(&v.addr);
+                    let x = NEWOWNER;
+                    let vcfg = |uifd: Option<u64>, uspread: Option<u128>| Msg::VCfg { v: id, ucap: None, uoic: None, utoll: None, uspread, ufluct: None, ueng: None, uifd, ufeed: None, utwi: None };
+                    call(g, o, vcfg(Some(x), Some(w.cfg.d / 100 + 1)));
+                    g.plan.push_back(Plan::TraderOp { vi: v.idx, who: Who::Id(TRADERS[(hh % 4) as usize]), op: TOp::OpenSame, block: Blk::Free });
+                    call(g, STRANGER, Msg::VSetOpen { v: id, uopen: 0 });
+                    call(g, eowner, Msg::VSetOpen { v: id, uopen: 0 });
+                    call(g, x, Msg::VSetOpen { v: id, uopen: 0 });
+                    call(g, IFUND, Msg::VSetOpen { v: id, uopen: 1 });
+                    call(g, x, Msg::VSetOpen { v: id, uopen: 1 });
+                    g.plan.push_back(Plan::TraderOp { vi: v.idx, who: Who::Id(TRADERS[(hh % 4) as usize]), op: TOp::Close, block: Blk::Free });
+                    call(g, o, vcfg(Some(IFUND), None));
+                    call(g, x, Msg::VSetOpen { v: id, uopen: 0 });
+                    stats.count("campaign", "role_delegation_vamm_fund");
+                }
+            }
+            0 | 1 => {
+                let p0 = w.pauser();
+                let n = other(p0);
+                let paused = w.engine_paused();
+                if !paused {
+                    call(g, p0, Msg::EPauser { new: n });
+                    for by in [p0, eowner, 101] {
+                        if by != n {
+                            call(g, by, Msg::Pause { p: 1 });
+                        }
+                    }
+                    call(g, n, Msg::Pause { p: 1 });
+                    for by in [p0, eowner, STRANGER] {
+                        if by != n {
+                            call(g, by, Msg::Pause { p: 0 });
+                            call(g, by, Msg::WlAdd { a: 102 });
+                        }
+                    }
+                    call(g, n, Msg::Pause { p: 0 });
+                    call(g, n, Msg::EPauser { new: p0 });
+                    call(g, n, Msg::Pause { p: 1 });
+                    call(g, n, Msg::EPauser { new: n });
+                    call(g, p0, Msg::Pause { p: 1 });
+                    for by in [n, eowner] {
+                        if by != p0 {
+                            call(g, by, Msg::Pause { p: 0 });
+                        }
+                    }
+                    call(g, p0, Msg::Pause { p: 0 });
+                    stats.count("campaign", "role_handover_pauser");
+                }
+            }
+            2 => {
+                let n = other(eowner);
+                let ecfg = |uowner: Option<u64>, ulf: Option<u128>| Msg::ECfg { uowner, uifd: None, ufp: None, uimr: None, ummr: None, uplr: None, ulf };
+                let lf = w.engine_config().map(|c| c.liquidation_fee.u128()).unwrap_or(0);
+                call(g, eowner, ecfg(Some(n), None));
+                call(g, eowner, ecfg(None, Some(lf)));
+                call(g, eowner, ecfg(Some(eowner), None));
+                call(g, w.pauser(), ecfg(None, Some(lf)));
+                call(g, n, ecfg(None, Some(lf)));
+                call(g, n, ecfg(Some(eowner), None));
+                call(g, n, ecfg(None, Some(lf)));
+                call(g, n, ecfg(Some(n), None));
+                call(g, eowner, ecfg(None, Some(lf)));
+                stats.count("campaign", "role_handover_engine_owner");
+            }
+            3 => {
+                if let Some(v) = vis.iter().find(|v| v.usable()) {
+                    let o = w.vamm_owner(&v.addr);
+                    let n = other(o);
+                    let id = v.id;
+                    call(g, o, Msg::VOwner { v: id, new: n });
+                    for by in [o, eowner, STRANGER] {
+                        if by != n {
+                            call(g, by, Msg::VSetOpen { v: id, uopen: 0 });
+                            call(g, by, Msg::VOwner { v: id, new: by });
+                        }
+                    }
+                    call(g, n, Msg::VSetOpen { v: id, uopen: 0 });
+                    for by in [o, eowner] {
+                        if by != n {
+                            call(g, by, Msg::VSetOpen { v: id, uopen: 1 });
+                        }
+                    }
+                    call(g, n, Msg::VSetOpen { v: id, uopen: 1 });
+                    call(g, n, Msg::VOwner { v: id, new: o });
+                    call(g, n, Msg::VSetOpen { v: id, uopen: 0 });
+                    call(g, n, Msg::VOwner { v: id, new: n });
+                    call(g, o, Msg::VSetOpen { v: id, uopen: 1 });
+                    stats.count("campaign", "role_handover_vamm_owner");
+                }
+            }
+            4 => {
+                let o = w.if_owner();
+                let n = other(o);
+                let v = vis.iter().find(|v| !v.registered).or_else(|| vis.first()).map(|v| v.id).unwrap_or(VAMM0);
+                call(g, o, Msg::IfOwner { new: n });
+                for by in [o, eowner, STRANGER] {
+                    if by != n {
+                        call(g, by, Msg::IfRm { v });
+                        call(g, by, Msg::IfAdd { v });
+                        call(g, by, Msg::IfOwner { new: by });
+                    }
+                }
+                call(g, n, Msg::IfRm { v });
+                call(g, n, Msg::IfAdd { v });
+                call(g, n, Msg::IfOwner { new: o });
+                call(g, n, Msg::IfRm { v });
+                call(g, n, Msg::IfOwner { new: n });
+                call(g, o, Msg::IfRm { v });
+                call(g, o, Msg::IfAdd { v });
+                stats.count("campaign", "role_handover_fund_owner");
+            }
+            _ => {
+                let o = w.fp_owner();
+                let n = other(o);
+                let fo = w.feed_owner();
+                let fnew = other(fo);
+                let tok = if w.token.is_some() { 5 } else { 0 };
+                call(g, o, Msg::FpOwner { new: n });
+                for by in [o, eowner, STRANGER] {
+                    if by != n {
+                        call(g, by, Msg::FpSend { tok, amt: 1, to: by });
+                        call(g, by, Msg::FpRm { tok });
+                        call(g, by, Msg::FpOwner { new: by });
+                    }
+                }
+                call(g, n, Msg::FpSend { tok, amt: 1, to: n });
+                call(g, n, Msg::FpOwner { new: o });
+                call(g, n, Msg::FpSend { tok, amt: 1, to: n });
+                call(g, fo, Msg::FdOwner { new: fnew });
+                call(g, fo, Msg::FdOwner { new: fo });
+                if eowner != fnew {
+                    call(g, eowner, Msg::FdOwner { new: eowner });
+                }
+                call(g, fnew, Msg::FdOwner { new: fo });
+                call(g, fnew, Msg::FdOwner { new: fnew });
+                stats.count("campaign", "role_handover_pool_feed_owner");
             }
         }
     }
@@ -2056,11 +2457,16 @@ pub fn gen_step(w: &World, r: &mut Rng, g: &mut GenCtx, k: u64, stats: &mut Stat
     }
     while let Some(pl) = g.plan.pop_front() {
         if let Some(d) = realize(w, r, g, &pl, &vis, &ps) {
+            if let Plan::TraderOp { op, .. } = &pl {
+                stats.count("trader_op", &format!("{:?}", op));
+            }
             stats.count("plan", match pl {
                 Plan::VictimOpen { .. } => "victim_open",
                 Plan::Push { .. } => "push",
                 Plan::AlignOracle { .. } => "align_oracle",
                 Plan::OracleSkew { .. } => "oracle_skew",
+                Plan::OracleSkewRecv { .. } => "oracle_skew_recv",
+                Plan::Call { .. } => "call",
                 Plan::FundingRound { .. } => "funding_round",
                 Plan::Liq { .. } => "liq",
                 Plan::OpenFrac { .. } => "open_frac",
